@@ -484,17 +484,14 @@ def r05_3(ctx):
 
 @rule("R05.4", 3, "streaming trials run before the buffering TOML trial", ["C05"])
 def r05_4(ctx):
-    trials = common.trial_functions(ctx.facts)
-    det = common.detect_function(ctx.facts)
-    pos = {}
-    for bb, t in det.calls():
-        f = fn_of(t) or {}
-        for fmt, b in trials.items():
-            if (f.get("resolved") or f.get("def")) == b.id:
-                pos[fmt] = bb
+    ts = common.trial_sequence(ctx.facts)
+    det = ts.driver
+    for p in ts.problems:
+        ctx.ob(f"driver-shape:{p[:40]}", False, site(det), p)
+    where = ts.entries.get("toml", {}).get("site", site(det))
     for fmt in ("msgpack", "json", "yaml"):
-        ok = fmt in pos and "toml" in pos and det.dominates(pos[fmt], pos["toml"]) and pos[fmt] != pos["toml"]
-        ctx.ob(f"{fmt}-before-toml", ok, site(det, pos.get("toml")), f"{fmt} trial precedes the TOML trial" if ok else f"the TOML trial (buffers up to its cap) can run before the streaming {fmt} trial")
+        ok = ts.before(fmt, "toml")
+        ctx.ob(f"{fmt}-before-toml", ok, where, f"{fmt} trial precedes the TOML trial (trial order: {ts.order})" if ok else f"the TOML trial (buffers up to its cap) can run before the streaming {fmt} trial (trial order: {ts.order})")
 
 
 # --------------------------------------------------------------------------- C10
@@ -502,17 +499,14 @@ def r05_4(ctx):
 
 @rule("R10.1", 2, "trial order: JSON before YAML and MessagePack before YAML", ["C10"])
 def r10_1(ctx):
-    trials = common.trial_functions(ctx.facts)
-    det = common.detect_function(ctx.facts)
-    pos = {}
-    for bb, t in det.calls():
-        f = fn_of(t) or {}
-        for fmt, b in trials.items():
-            if (f.get("resolved") or f.get("def")) == b.id:
-                pos[fmt] = bb
+    ts = common.trial_sequence(ctx.facts)
+    det = ts.driver
+    for p in ts.problems:
+        ctx.ob(f"driver-shape:{p[:40]}", False, site(det), p)
+    where = ts.entries.get("yaml", {}).get("site", site(det))
     for a in ("json", "msgpack"):
-        ok = a in pos and "yaml" in pos and det.dominates(pos[a], pos["yaml"]) and pos[a] != pos["yaml"]
-        ctx.ob(f"{a}-before-yaml", ok, site(det, pos.get("yaml")), f"{a} trial precedes the YAML trial" if ok else f"YAML is tried before {a}: xt's own {a} output would be claimed as YAML" if a == "json" else f"YAML is tried before {a}")
+        ok = ts.before(a, "yaml")
+        ctx.ob(f"{a}-before-yaml", ok, where, f"{a} trial precedes the YAML trial (trial order: {ts.order})" if ok else (f"YAML is tried before {a}: xt's own {a} output would be claimed as YAML" if a == "json" else f"YAML is tried before {a}"))
 
 
 @rule("R10.2", 8, "collection-marker tables agree: MessagePack trial accepts exactly rmp's array/map markers; YAML trial accepts exactly sequence/mapping roots", ["C10"])
